@@ -469,3 +469,10 @@ MUTANTS += [
 HARMLESS += [
  {"id": "h-c10-objsym-local", "prop": "C10", "file": "adcgen/expr_container.py", "old": "        new_expr = Expr(self.sympy, **assumptions)\n        return new_expr.terms[0].symmetry(only_target=True)", "new": "        probe = Expr(self.sympy, **assumptions).terms[0]\n        return probe.symmetry(only_target=True)"},
 ]
+MUTANTS += [
+ {"id": "c19-split-density-by-amplitude-length", "prop": "C19", "file": "adcgen/tensor_names.py", "old": "    n = len(tensor_names.gs_density)\n", "new": "    n = len(tensor_names.gs_amplitude)\n"},
+ {"id": "c19-split-amplitude-default-length", "prop": "C19", "file": "adcgen/tensor_names.py", "old": "    n = len(tensor_names.gs_amplitude)\n    return name[:n], name[n:]", "new": "    n = 1\n    return name[:n], name[n:]"},
+]
+HARMLESS += [
+ {"id": "h-c19-split-local", "prop": "C19", "file": "adcgen/tensor_names.py", "old": "    n = len(tensor_names.gs_density)\n    return name[:n], name[n:]", "new": "    base = tensor_names.gs_density\n    return name[:len(base)], name[len(base):]"},
+]
